@@ -23,6 +23,8 @@ type Host struct {
 	Env   *env.Env
 	// Nested: Env is a child (with an empty external lookup) of the environment that holds the host functions
 	Nested bool
+	// abandoned: ExecTimeout gave the run up while it was still going (see there): the probes log nothing any more
+	abandoned bool
 }
 
 // HostStruct is the type of hst, a Go struct the host binds by pointer.
@@ -46,6 +48,9 @@ func NewHost() *Host {
 	h.Env.Define("p", func(args ...interface{}) interface{} {
 		h.mu.Lock()
 		defer h.mu.Unlock()
+		if h.abandoned {
+			return nil
+		}
 		if len(args) == 0 {
 			h.Trace = append(h.Trace, "p")
 			return nil
@@ -59,7 +64,9 @@ func NewHost() *Host {
 	})
 	h.Env.Define("pfail", func(id interface{}) interface{} {
 		h.mu.Lock()
-		h.Trace = append(h.Trace, "pfail "+RenderGo(id))
+		if !h.abandoned {
+			h.Trace = append(h.Trace, "pfail "+RenderGo(id))
+		}
 		h.mu.Unlock()
 		if n, ok := id.(int64); ok && n%2 == 1 {
 			// a Go function may panic with an error value as well as with a text: the script sees the same
@@ -129,7 +136,9 @@ func NewHost() *Host {
 			parts = append(parts, RenderGo(a))
 		}
 		h.mu.Lock()
-		h.Trace = append(h.Trace, "pd "+strings.Join(parts, " "))
+		if !h.abandoned {
+			h.Trace = append(h.Trace, "pd "+strings.Join(parts, " "))
+		}
 		h.mu.Unlock()
 		return nil
 	}
@@ -181,11 +190,36 @@ func (h *Host) Exec(src string) (interface{}, error) {
 }
 
 // ExecTimeout is Exec under a deadline; timedOut reports that the deadline ended the run.
+//
+// The interruption does not reach a script function that a Go function calls back (gcall0, geach: the
+// interpreter runs such a callback without the caller's context), so a loop that never ends inside a
+// callback would never return here. The run therefore goes on a goroutine of its own; when it is still
+// going 3 s after the deadline it is given up - reported as timed out, left running, its probes muted -
+// so that a change under test that makes such a loop spin is reported as a hang instead of stalling
+// the whole check.
 func (h *Host) ExecTimeout(src string, d time.Duration) (v interface{}, err error, timedOut bool) {
 	ctx, cancel := context.WithTimeout(context.Background(), d)
 	defer cancel()
-	v, err = ank.ExecCtx(ctx, h.Env, src)
-	return v, err, ctx.Err() != nil && err != nil
+	type result struct {
+		v   interface{}
+		err error
+	}
+	done := make(chan result, 1)
+	go func() {
+		v, err := ank.ExecCtx(ctx, h.Env, src)
+		done <- result{v, err}
+	}()
+	grace := time.NewTimer(d + 3*time.Second)
+	defer grace.Stop()
+	select {
+	case r := <-done:
+		return r.v, r.err, ctx.Err() != nil && r.err != nil
+	case <-grace.C:
+		h.mu.Lock()
+		h.abandoned = true
+		h.mu.Unlock()
+		return nil, errors.New("the run ignores the interruption: still running 3 s after the deadline"), true
+	}
 }
 
 // RenderGo renders a Go value produced by anko in the format of Render.
